@@ -104,6 +104,7 @@ fn observe(is: &[Instruction], cuts: &[usize], pr: &mut Proj, iso: Option<&mut I
             tagged("same", same),
             tagged("child", vec![child_same]),
             tagged("concat", vec![cl]),
+            pr.key_report(),
         ],
     )
 }
@@ -150,6 +151,8 @@ fn run(ctx: &mut Ctx) {
         vec!["DECLARE ro BIT[2]", "DECLARE theta REAL[1]", "DECLARE ro BIT[4]", "DECLARE acc INTEGER[2]"],
         vec!["PRAGMA EXTERN foo \"INTEGER (x : INTEGER)\"", "PRAGMA EXTERN \"OCTET\"", "PRAGMA EXTERN bar \"(y : mut INTEGER)\"", "PRAGMA EXTERN foo \"REAL (x : REAL)\""],
         vec!["DEFCAL X 0:\n\tY 7", "DEFCAL X 5:\n\tNOP", "DEFCAL MEASURE 2 addr:\n\tX 11", "DEFCAL X 0:\n\tY 13", "DEFCAL MEASURE 2 addr:\n\tX 2"],
+        vec!["DEFCAL DAGGER X 0 1:\n\tX 23", "DEFCAL CONTROLLED X 0 1:\n\tX 24", "DEFCAL X 0 1:\n\tX 22", "DEFCAL RX(pi) 0:\n\tX 30", "DEFCAL DAGGER RX(pi) 0:\n\tX 31",
+             "DEFCAL MEASURE 0 addr:\n\tNOP", "DEFCAL MEASURE 0:\n\tX 43", "DEFCAL MEASURE!mid 0 addr:\n\tX 47"],
         vec!["DEFGATE FOO:\n\t1, 0\n\t0, 1", "DEFCIRCUIT BELL a b:\n\tH a\n\tCNOT a b", "DEFWAVEFORM wf:\n\t1, 0.5, 0.25", "DEFGATE FOO:\n\t0, 1\n\t1, 0", "DEFCIRCUIT BELL a b:\n\tH b\n\tCNOT b a", "DEFWAVEFORM wf:\n\t0.5i, 1"],
     ];
     for h in &corpus {
@@ -170,6 +173,8 @@ fn run(ctx: &mut Ctx) {
         "DEFWAVEFORM wf:\n\t0.5i, 1",
         "DEFGATE FOO:\n\t1, 0\n\t0, 1",
         "DEFGATE FOO:\n\t0, 1\n\t1, 0",
+        "DEFCAL X 0:\n\tY 7",
+        "DEFCAL DAGGER X 0:\n\tY 14",
     ]
     .iter()
     .map(|t| one(t))
@@ -181,10 +186,10 @@ fn run(ctx: &mut Ctx) {
         'outer: loop {
             let is: Vec<Instruction> = idx.iter().map(|&k| alphabet[k].clone()).collect();
             let cut = idx.iter().sum::<usize>() % (len + 1);
-            // the fresh-process build is done for one sequence in four of this stream (every case of
+            // the fresh-process build is done for one sequence in eight of this stream (every case of
             // the other streams): a round trip to the child costs more than the nine in-process builds
             exh += 1;
-            emit(ctx, if exh % 4 == 0 { Some(&mut iso) } else { None }, is, vec![cut]);
+            emit(ctx, if exh % 8 == 0 { Some(&mut iso) } else { None }, is, vec![cut]);
             let mut k = len;
             loop {
                 if k == 0 {
